@@ -118,6 +118,10 @@ func (e *Engine) evalSpec(x *SExpr, env *SpecEnv) Value {
 			return VTerm{T: tFalse, Typ: boolT}
 		case "nil":
 			return VTerm{T: mkConst("nil", SRef), Typ: types.Typ[types.UntypedNil]}
+		case "nextid":
+			if n, ok := env.st.mem["@nextid"]; ok {
+				return VTerm{T: n, Typ: intT}
+			}
 		}
 		if b, ok := env.bound[x.Val]; ok {
 			return VTerm{T: b, Typ: intT}
@@ -553,6 +557,14 @@ func (e *Engine) evalSpecCall(x *SExpr, env *SpecEnv) Value {
 		}
 		var ts []*Term
 		for i, v := range vs {
+			if pf.Args[i] == "chanslice" {
+				sl, ok := v.(VSlice)
+				if !ok {
+					unsup("spec: %s expects a slice of channels", name)
+				}
+				ts = append(ts, sl.Arr)
+				continue
+			}
 			t := term(v)
 			switch pf.Args[i] {
 			case "real":
